@@ -225,12 +225,11 @@ fn phases(thorough: bool, c16: bool) -> Vec<Phase> {
         })
         .collect();
     // big functions around size thresholds: every history of length <= 2 (3 for small sizes) over the full alphabet
-    let big_units: Vec<HUnit<Probe>> = threshold_sizes(thorough)
+    let big_units: Vec<HUnit<Probe>> = big_shapes(thorough, if thorough { 257 } else { 129 })
         .into_iter()
-        .filter(|&n| n <= if thorough { 257 } else { 129 })
-        .map(|n| {
-            let e = iota(n);
-            make_unit(e.clone(), probe_pw(&e), if n <= 17 { 3 } else { 2 }, c16, "Probe")
+        .map(|e| {
+            let d = if e.len() <= 17 { 3 } else { 2 };
+            make_unit(e.clone(), probe_pw(&e), d, c16, "Probe")
         })
         .collect();
     let mut v = vec![];
@@ -272,7 +271,7 @@ fn phases(thorough: bool, c16: bool) -> Vec<Phase> {
         split: 1,
         body: hist_body(Arc::new(big_units), c16),
         classes: classes(c16).into_iter().map(|(n, _)| (n, false)).collect(),
-        bounds: json!({"shapes": format!("1..n for n in {:?}", threshold_sizes(thorough).into_iter().filter(|&n| n <= if thorough { 257 } else { 129 }).collect::<Vec<_>>()),
+        bounds: json!({"shapes": format!("for n in {:?}: 1..n, the centred list -n/2..n/2 (with +0.0 and with -0.0), three variants with periodic duplicate runs and one with a long run; for n = 33, 34, 65, 66 (100, 129 thorough) every list with a single duplicated end at each position", threshold_sizes(thorough).into_iter().filter(|&n| n <= if thorough { 257 } else { 129 }).collect::<Vec<_>>()),
                        "histories": "every history of length <= 2 (<= 3 for n <= 17) over the full order-complete alphabet A(ends)"}),
     });
     v.push(debruijn_phase(thorough, c16));
